@@ -15,6 +15,7 @@ import MudModel.Verlet
 import MudModel.Electronic
 import MudModel.Hopping
 import MudModel.Hop
+import MudModel.Ehrenfest
 
 namespace Mud
 variable {α : Type} {N n : Nat}
@@ -92,5 +93,76 @@ def shRun (m : Fin n → α) (dt : α) : Elec α N n → SH α N n → List (Ste
     let r := shStep m dt eLast inp s
     r :: shRun m dt inp.elec r.1 rest
 end
+
+/-! ### Ehrenfest: the same loop with the mean-field (as coded: population-weighted) force and no hopping -/
+
+section ehrenfest
+variable [Add α] [Sub α] [Mul α] [Div α] [Neg α] [Zero α] [One α] [NatCast α] [HasTrig α]
+
+/-- one step of `Ehrenfest.simulate()`. The force that moves the nuclei is `Ehrenfest._force` evaluated with the density
+    matrix as it is when the force is asked for: ρ of the START of the step for all three evaluations (it is propagated
+    afterwards). `surface_hopping` does nothing: the label never changes. Returns also the logged potential `Re tr(ρ' H')`. -/
+def ehStep (m : Fin n → α) (dt : α) (eLast : Elec α N n) (inp : StepIn α N n) (s : SH α N n) : SH α N n × α :=
+  let rho0 : Fin N → Fin N → Cx α := fun a b => s.rho.get a b
+  let a0 := accel (ehrenfestForcePinned rho0 eLast.force) m
+  let x1 := Vec.ofFn (advancePosition s.x.get s.v.get a0 dt)
+  let a1 := accel (ehrenfestForcePinned rho0 inp.elec.force) m
+  let v1 := Vec.ofFn (advanceVelocity s.v.get a0 a1 dt)
+  let rho1 := expStep inp.diags inp.coeff dt s.rho
+  let pot := ehrenfestPotential (fun a b => rho1.get a b) (fun a b => inp.elec.H.get a b)
+  ({ x := x1, v := v1, vlast := s.v, rho := rho1, state := s.state, time := s.time + dt, nsteps := s.nsteps + 1 }, pot)
+
+def ehRun (m : Fin n → α) (dt : α) : Elec α N n → SH α N n → List (StepIn α N n) → List (SH α N n × α)
+  | _, _, [] => []
+  | eLast, s, inp :: rest =>
+    let r := ehStep m dt eLast inp s
+    r :: ehRun m dt inp.elec r.1 rest
+end ehrenfest
+
+/-! ### cumulative FSSH: the FSSH step with `TrajectoryCum.hopper` in place of the per-step threshold test -/
+
+section cumulative
+variable [Add α] [Sub α] [Mul α] [Div α] [Neg α] [Zero α] [One α] [NatCast α] [LT α] [DecidableLT α]
+  [HasSqrt α] [HasTrig α] [HasAbs α] [HasExp α]
+
+/-- per-step external inputs of the cumulative hopper: the uniform number `Generator.choice` would draw and the value
+    `draw_new_zeta` would return (both only consumed when an attempt happens) -/
+structure CumIn (α : Type) where
+  u : α
+  newZeta : α
+
+/-- one step of `TrajectoryCum.simulate()` -/
+def cumStep (m : Fin n → α) (dt : α) (eLast : Elec α N n) (inp : StepIn α N n) (ci : CumIn α)
+    (sc : SH α N n × CumState α) : (SH α N n × CumState α) × StepEvent :=
+  let s := sc.1
+  let a0 := accel (eLast.force s.state) m
+  let x1 := Vec.ofFn (advancePosition s.x.get s.v.get a0 dt)
+  let a1 := accel (inp.elec.force s.state) m
+  let v1 := Vec.ofFn (advanceVelocity s.v.get a0 a1 dt)
+  let rho1 := expStep inp.diags inp.coeff dt s.rho
+  let W := stepW eLast inp.elec v1.get s.v.get
+  let g : List α := List.ofFn (fun j : Fin N => gkndt (fun a b => rho1.get a b) (fun a b => W.get a b) s.state dt j)
+  let hr := cumHopper sc.2 g ci.u ci.newZeta
+  let base : SH α N n := { x := x1, v := v1, vlast := s.v, rho := rho1, state := s.state, time := s.time + dt,
+                           nsteps := s.nsteps + 1 }
+  match hr.2 with
+  | none => ((base, hr.1), none)
+  | some (none, _, _) => ((base, hr.1), none)
+  | some (some t, _, _) =>
+    if h : t < N then
+      let tgt : Fin N := ⟨t, h⟩
+      let energies : Fin N → α := fun i => inp.elec.H.get i i
+      let r := hopToIt m v1.get (fun x => inp.elec.dc s.state tgt x) energies s.state tgt
+      if r.accepted then (({ base with v := Vec.ofFn r.velocity, state := tgt }, hr.1), some (true, s.state.val, t))
+      else ((base, hr.1), some (false, s.state.val, t))
+    else ((base, hr.1), none)
+
+def cumRun (m : Fin n → α) (dt : α) : Elec α N n → SH α N n × CumState α → List (StepIn α N n × CumIn α) →
+    List ((SH α N n × CumState α) × StepEvent)
+  | _, _, [] => []
+  | eLast, sc, (inp, ci) :: rest =>
+    let r := cumStep m dt eLast inp ci sc
+    r :: cumRun m dt inp.elec r.1 rest
+end cumulative
 
 end Mud
